@@ -4,7 +4,7 @@
 From stdpp Require Import gmap.
 From RecordUpdate Require Import RecordSet.
 From Coq Require Import ZArith NArith List Bool Lia Strings.Byte.
-Require Import Regen.Base.Bytes Regen.Base.Calendar Regen.Dec.Dec Regen.Dec.DecIface Regen.Ids.Ids.
+Require Import Regen.Base.Bytes Regen.Base.BigIntScan Regen.Base.Calendar Regen.Dec.Dec Regen.Dec.DecIface Regen.Ids.Ids.
 Require Import Regen.Ledger.Types Regen.Ledger.Msgs Regen.Ledger.Orm Regen.Ledger.BaseMsgs
                Regen.Ledger.BasketMsgs Regen.Ledger.MarketMsgs Regen.Ledger.Step
                Regen.Ledger.Amount Regen.Ledger.MapSum Regen.Ledger.Inv Regen.Ledger.InvTactics
@@ -405,7 +405,7 @@ Proof. intros (bm & bs & ->) H. destruct H. split; assumption. Qed.
 Lemma bank_sup_frame_eq s s' y : bank_supply s' = bank_supply s -> bank_sup s' y = bank_sup s y.
 Proof. intros H. unfold bank_sup. rewrite H. reflexivity. Qed.
 
-Lemma parse_sdk_int_eq s : parse_sdk_int s = parse_sdk_int' s.
+Lemma parse_sdk_int_eq s : parse_sdk_int s = sdk_int_from_string s.
 Proof. reflexivity. Qed.
 
 Lemma new_coins1_pos d t cs : 0 < t -> new_coins1 d t = LOk cs -> cs = cons (coin1 d t) nil.
@@ -440,7 +440,7 @@ Proof.
   apply send_coins1 in Hsend. destruct Hsend as (B1 & _ & _ & Hsup1 & Hbal1).
   apply burn_coins1 in Hburn. destruct Hburn as (B2 & _ & _ & Hbal2 & Hsup2).
   rewrite parse_sdk_int_eq in Htok.
-  pose proof (sdk_int_parse' _ _ _ Htok Hpos Hamt) as ->.
+  pose proof (sdk_int_reparse _ _ Hpos (sdk_int_bound _ _ Htok Hpos) Hamt) as ->.
   destruct (quo_exact_units _ _ Hpos Hq) as (Hn1 & Hn2 & Hn3 & Hn4).
   assert (Hnin : in_ok needed) by (split; [lia | split; [congruence | exact Hn3]]).
   pose proof (bank_only_trans _ _ _ B1 B2) as B12.
